@@ -30,6 +30,7 @@ PROPERTY StopSticky
 PROPERTY DoneIsFinal
 PROPERTY RaiseStops
 PROPERTY FlagPerProcess
+PROPERTY PbpOneThread
 ACTION_CONSTRAINT EmitTransition
 VIEW View
 CHECK_DEADLOCK FALSE
